@@ -848,7 +848,11 @@ fn dump_state(store: &Arc<Store>, key: &MasterKey) -> Result<String> {
 }
 
 fn main() {
-    std::panic::set_hook(Box::new(|_| {}));
+    if std::env::var("C05_DEBUG").is_ok() {
+        std::panic::set_hook(Box::new(|i| eprintln!("panic: {i}")));
+    } else {
+        std::panic::set_hook(Box::new(|_| {}));
+    }
     let args: Vec<String> = std::env::args().collect();
     let text = if args.len() > 1 && args[1] != "-" { std::fs::read_to_string(&args[1]).expect("cases") } else { std::io::read_to_string(std::io::stdin()).expect("stdin") };
     let out = std::io::stdout();
